@@ -93,3 +93,8 @@ claim('C04', 'exploration',
       'Header-safe library names; names reach the tagger unchanged; the leading @ of a FASTQ header is syntax. Trusted: pysam query_name length check.',
       'exhaustive enumeration (codec) + property-based round-trip testing (Hypothesis) encode -> decode',
       'DESIGN.md section 4, C04')
+claim('C01', 'exploration',
+      'Hypothesis-generated FASTQ libraries (1..40 pairs with per-pair classes: whitelisted / 1- / 2-mismatch / random barcode, truncated and empty reads, N-rich, qualities 33..126, nine header variants, several pairs per cell) for every registered strategy, paired and single end incl. the wrong arity, with / without rejects handle, joint or per-cell output with small handle limits, maxReadPairs cut-offs, Hamming expansion 0/1, gzip / plain input, run through DemultiplexingStrategyLoader.demultiplex with real FastqHandles; all output files are parsed by an independent FASTQ reader and the serials of demultiplexed + rejected records must partition the consumed input, mates synchronised and ordered, rejects with reason and unchanged bases, counters and log equal to the files.',
+      'Well-formed FASTQ input; library names <= 40 characters; acceptance itself is not predicted; the demux.py command line wrapper is not run. Harness barcode directory with synthetic whitelists for three aliases.',
+      'property-based testing (Hypothesis) with a multiset-accounting oracle over independently parsed outputs',
+      'DESIGN.md section 4, C01')
